@@ -30,7 +30,7 @@ fn spec(tier: Tier) -> CheckSpec {
 			(comments) every program with <= {} constructs with every single insertion of {{block comment, line comment on its own line, trailing line comment, hash comment, empty block comment, blank block comment, doc comment, multi-line block comment}} at every token boundary, and with a block / line comment at every boundary at once: same tree, and the output's comment sequence equals the input's (order and text, whitespace-trimmed); \
 			(strings) every string literal of <= 2 items over a 17-item escape alphabet in double, single and both verbatim quotings, every text block of <= 2 lines over {{a, empty, tab+b, spaces+c, spaces only}} x block indentation {{space, tab}} x {{|||, |||-}}, alone and as an object field value: same decoded value; plus the repository's parser/formatter/suite inputs. non-trivial = distinct (text, indentation) that the formatter formats",
 			tier.q(3, 4),
-			tier.q("indentation 2", "indentation tabs, 2 and 4"),
+			tier.q("indentation 2", "indentation tabs, 2 and 4 (the programs with exactly 4 constructs, and the comment decorations of programs with 3: indentation 2)"),
 			tier.q(2, 3)
 		),
 		assumptions: vec!["tree equality is decided on the evaluator's default parser output, printed without positions (harness/src/canon.rs), with `local f(p) = e` read as `local f = function(p) e` and `f(p): e` as `f: function(p) e`; the same evaluation result follows from the same tree".into()],
@@ -177,7 +177,9 @@ fn part_gen(shard: &Shard, journal: &Journal, rep: &mut Report) {
 		}
 		let text = print(&e);
 		journal.note(idx, "gen", &text);
-		for i in indents(shard.tier) {
+		// the largest programs of the thorough tier with one indentation setting, everything below with all
+		let ind: &[u8] = if shard.tier == Tier::Thorough && c.used() >= 4 { &[2] } else { indents(shard.tier) };
+		for i in ind {
 			check_program(rep, &text, *i, None, c.used());
 		}
 		if idx % 50_021 == 0 {
@@ -207,15 +209,16 @@ fn part_comments(shard: &Shard, journal: &Journal, rep: &mut Report) {
 			return;
 		}
 		let text = print(&e);
+		let ind: &[u8] = if shard.tier == Tier::Thorough && c.used() >= 3 { &[2] } else { indents(shard.tier) };
 		for d in decorations(&text, false) {
 			journal.note(idx, "comments", &d.text);
-			for i in indents(shard.tier) {
+			for i in ind {
 				check_program(rep, &d.text, *i, Some((d.what, &d.prev, &d.next)), c.used() + 1);
 			}
 		}
 		for (what, t) in decorate_all(&text).into_iter().skip(1) {
 			journal.note(idx, "comments", &t);
-			for i in indents(shard.tier) {
+			for i in ind {
 				check_program(rep, &t, *i, Some((what, "<all>", "<all>")), c.used() + 2);
 			}
 		}
